@@ -434,6 +434,10 @@ def _st_item_interval(pool):
     return st.one_of(st.none(), iv, iv, st.lists(iv, min_size=1, max_size=2), st.lists(iv, min_size=2, max_size=2))
 
 
+REL_P = [1.5, -0.5, 2.0, 0.25]
+INDEX_DEP = [[True, True], [False, False], [True, False], [False, True]]
+
+
 @st.composite
 def sys_cases(draw, focus):
     nds = draw(st.integers(1, 2))
@@ -448,6 +452,9 @@ def sys_cases(draw, focus):
         "linked": linked,
         "axes": axes,
         "model_n": model_n,
+        # [ma, mb]: does the matrix of the megacomplex depend on the global index (3d) or not (one 2d matrix
+        # shared by all indices)?  Interval items act per index either way.
+        "index_dep": draw(st.sampled_from(INDEX_DEP)),
         "seed": draw(st.integers(0, 2**31 - 1)),
         "constraints": [],
         "relations": [],
@@ -455,21 +462,41 @@ def sys_cases(draw, focus):
         "weights": [],
         "ds_weight": [False] * nds,
     }
-    n_con = draw(st.integers(*{"constraints": (1, 3), "weights": (0, 1), "penalty": (0, 2), "dsweight": (0, 0)}[focus]))
+    con_targets = ["s0", "s1"]
+    if focus == "relations":
+        # 2-3 relations with pairwise different targets, sources that are no targets (no chains): every
+        # combination of them has a defined meaning at every index, whatever their intervals are
+        n_rel = draw(st.integers(2, 3))
+        perm = list(draw(st.permutations(LABELS)))
+        targets, sources = perm[:n_rel], perm[n_rel:]
+        for t in targets:
+            case["relations"].append({
+                "source": draw(st.sampled_from(sources)),
+                "target": t,
+                "interval": draw(_st_item_interval(GLOBAL_POOL)),
+                "p": draw(st.sampled_from(REL_P)),
+            })
+        # constraints never on a relation target (undefined where both apply), but also on relation sources
+        con_targets = [lab for lab in con_targets if lab not in targets]
+        # ... and at least one clp stays free at every index (an index without any free clp is outside the domain:
+        # the statement says nothing about a problem without unknowns)
+        if all(lab in con_targets for lab in sources):
+            con_targets = con_targets[:-1]
+    n_con = draw(st.integers(*{"constraints": (1, 3), "weights": (0, 1), "penalty": (0, 2), "dsweight": (0, 0), "relations": (0, 2)}[focus]))
     pair_same = focus == "constraints" and draw(st.booleans())
     if pair_same:
         iv = draw(_st_item_interval(GLOBAL_POOL).filter(lambda v: v is not None))
         case["constraints"] = [{"type": "zero", "target": "s0", "interval": iv}, {"type": "only", "target": "s1", "interval": iv}]
-    else:
+    elif con_targets:
         for _ in range(n_con):
             case["constraints"].append({
                 "type": draw(st.sampled_from(["zero", "only"])),
-                "target": draw(st.sampled_from(["s0", "s1"])),
+                "target": draw(st.sampled_from(con_targets)),
                 "interval": draw(_st_item_interval(GLOBAL_POOL)),
             })
-    n_rel = draw(st.integers(0, {"constraints": 1, "weights": 0, "penalty": 1, "dsweight": 0}[focus]))
+    n_rel = draw(st.integers(0, {"constraints": 1, "weights": 0, "penalty": 1, "dsweight": 0, "relations": 0}[focus]))
     for _ in range(n_rel):
-        case["relations"].append({"interval": draw(_st_item_interval(GLOBAL_POOL)), "p": draw(st.sampled_from([1.5, -0.5, 2.0, 0.25]))})
+        case["relations"].append({"source": "s2", "target": "s3", "interval": draw(_st_item_interval(GLOBAL_POOL)), "p": draw(st.sampled_from(REL_P))})
     if focus == "penalty":
         for _ in range(draw(st.integers(1, 2))):
             src, tgt = draw(st.permutations(LABELS))[:2]
@@ -481,7 +508,10 @@ def sys_cases(draw, focus):
                 "p": draw(st.sampled_from([1.0, 0.5, -2.0, 3.0])),
                 "weight": draw(st.sampled_from([1.0, 0.5, 4.0])),
             })
-    n_w = draw({"constraints": st.sampled_from([0, 0, 0, 1]), "weights": st.integers(1, 2), "penalty": st.just(0), "dsweight": st.integers(1, 2)}[focus])
+    n_w = draw({
+        "constraints": st.sampled_from([0, 0, 0, 1]), "weights": st.integers(1, 2), "penalty": st.just(0),
+        "dsweight": st.integers(1, 2), "relations": st.sampled_from([0, 0, 1]),
+    }[focus])
     labels = [f"d{k}" for k in range(nds)]
     for _ in range(n_w):
         ds = draw(st.sampled_from([labels] + [[x] for x in labels]))
@@ -499,15 +529,37 @@ def sys_cases(draw, focus):
     return case
 
 
-def _table(t, g):
-    """Reference matrix (len(t), 4) at global value g - same closed form as verif-table, from plain floats."""
+@st.composite
+def locality_cases(draw):
+    """A system case plus one of its interval items (constraint, relation, model weight) to take away."""
+    base = draw(st.one_of(sys_cases("relations"), sys_cases("weights"), sys_cases("constraints"), sys_cases("dsweight")))
+    kinds = [k for k in ("relations", "weights", "constraints") if base[k]]
+    kind = draw(st.sampled_from(kinds))
+    return {"base": base, "drop": {"kind": kind, "k": draw(st.integers(0, len(base[kind]) - 1))}}
+
+
+def _index_dep(case):
+    dep = case.get("index_dep", [True, True])
+    return bool(dep[0]), bool(dep[1])
+
+
+def _rel_labels(r):
+    return r.get("source", "s2"), r.get("target", "s3")
+
+
+def _table(t, g, index_dep=(True, True)):
+    """Reference matrix (len(t), 4) at global value g - same closed form as verif-table, from plain floats.
+
+    A megacomplex that is not index dependent has the same columns (g = None) at every index.
+    """
     from vlib import testmc
 
+    ga, gb = (g if index_dep[0] else None), (g if index_dep[1] else None)
     cols = [
-        testmc.column("exp", RATES[0], t, g),
-        testmc.column("exp", RATES[1], t, g),
-        testmc.column("cos", RATES[2], t, g),
-        testmc.column("cos", RATES[3], t, g),
+        testmc.column("exp", RATES[0], t, ga),
+        testmc.column("exp", RATES[1], t, ga),
+        testmc.column("cos", RATES[2], t, gb),
+        testmc.column("cos", RATES[3], t, gb),
     ]
     return np.array(cols).T
 
@@ -519,11 +571,12 @@ def build_sys(case):
     from vlib import testmc
 
     nds = len(case["axes"])
+    dep = _index_dep(case)
     spec = {
         "dataset_groups": {"default": {"residual_function": "variable_projection", "link_clp": bool(case["linked"])}},
         "megacomplex": {
-            "ma": {"type": "verif-table", "labels": ["s0", "s1"], "rates": ["r.1", "r.2"], "shape": "exp", "index_dependent": True},
-            "mb": {"type": "verif-table", "labels": ["s2", "s3"], "rates": ["r.3", "r.4"], "shape": "cos", "index_dependent": True},
+            "ma": {"type": "verif-table", "labels": ["s0", "s1"], "rates": ["r.1", "r.2"], "shape": "exp", "index_dependent": dep[0]},
+            "mb": {"type": "verif-table", "labels": ["s2", "s3"], "rates": ["r.3", "r.4"], "shape": "cos", "index_dependent": dep[1]},
             # a free parameter that influences nothing: every evaluation of the objective is identical
             "unused": {"type": "verif-table", "labels": ["u"], "rates": ["free.1"], "shape": "exp"},
         },
@@ -533,7 +586,10 @@ def build_sys(case):
     if case["constraints"]:
         spec["clp_constraints"] = [{"type": c["type"], "target": c["target"], "interval": _model_intervals(c["interval"])} for c in case["constraints"]]
     if case["relations"]:
-        spec["clp_relations"] = [{"source": "s2", "target": "s3", "parameter": f"rel.{j + 1}", "interval": _model_intervals(r["interval"])} for j, r in enumerate(case["relations"])]
+        spec["clp_relations"] = [
+            {"source": _rel_labels(r)[0], "target": _rel_labels(r)[1], "parameter": f"rel.{j + 1}", "interval": _model_intervals(r["interval"])}
+            for j, r in enumerate(case["relations"])
+        ]
         params["rel"] = [[r["p"], {"vary": False}] for r in case["relations"]]
     if case["penalties"]:
         spec["clp_penalties"] = [
@@ -670,8 +726,13 @@ def prop_sys(case):
     for name, axis, clp, members in views:
         n = len(axis)
         everything = frozenset(range(n))
-        zeroed = {lab: frozenset(i for i in range(n) if clp[i, LABELS.index(lab)] == 0.0) for lab in ("s0", "s1")}
+        # a clp that is the target of a relation is decided by the relation clauses below (it is p * source, which is
+        # zero where the source is constrained to zero); all other constrainable clps are zero exactly where constrained
+        rel_targets = {_rel_labels(r)[1] for r in case["relations"]}
+        zeroed = {lab: frozenset(i for i in range(n) if clp[i, LABELS.index(lab)] == 0.0 and lab not in rel_targets) for lab in ("s0", "s1")}
         for lab in ("s0", "s1"):
+            if lab in rel_targets:
+                continue
             cons = [c for c in case["constraints"] if c["target"] == lab]
             lower, upper = set(), set()
             for c in cons:
@@ -696,31 +757,31 @@ def prop_sys(case):
         if len(cz) == 1 and len(co) == 1 and cz[0]["type"] == "zero" and co[0]["type"] == "only" and cz[0]["interval"] == co[0]["interval"]:
             tags.append("zero_only_pair")
             check(zeroed["s1"] == everything - zeroed["s0"], "sys.only_complement_of_zero", lambda: f"{name} axis {axis} interval {cz[0]['interval']}: zero at {sorted(zeroed['s0'])}, only zero at {sorted(zeroed['s1'])}")
-        # relations: s3 = p * s2 on the affected set
-        related = frozenset()
-        rel_p = {}
-        if case["relations"]:
-            lower, upper = set(), set()
-            for r in case["relations"]:
-                must, may = ref.union_sets(axis, r["interval"])
-                lower |= must
-                upper |= may
-                if r["interval"] is not None:
-                    nt, tg = _nontrivial(axis, r["interval"], must)
-                    nontrivial |= nt
-                    tags += [f"relation:{x}" for x in tg]
+        # relations: target = p * source on the affected set of each relation
+        hits = [[] for _ in range(n)]  # per index: (source column, target column, p) of the relations found acting
+        for r in case["relations"]:
+            src, tgt = _rel_labels(r)
+            si, ti = LABELS.index(src), LABELS.index(tgt)
+            must, may = ref.union_sets(axis, r["interval"])
+            if r["interval"] is not None:
+                nt, tg = _nontrivial(axis, r["interval"], must)
+                nontrivial |= nt
+                tags += [f"relation:{x}" for x in tg]
             hit = set()
             for i in range(n):
-                for r in case["relations"]:
-                    s2, s3 = clp[i, 2], clp[i, 3]
-                    if abs(s3 - r["p"] * s2) <= 1e-12 * max(abs(s3), abs(r["p"] * s2)):
-                        hit.add(i)
-                        rel_p[i] = r["p"]
+                vs, vt = clp[i, si], clp[i, ti]
+                if abs(vt - r["p"] * vs) <= 1e-12 * max(abs(vt), abs(r["p"] * vs)):
+                    hit.add(i)
+                    hits[i].append((si, ti, r["p"]))
             related = frozenset(hit)
-            check(frozenset(lower) <= related, "sys.relation.covers", lambda: f"{name}: s3 = p*s2 holds at {sorted(related)} of axis {axis}; relations {case['relations']}: must hold at {sorted(lower)}; clp s2,s3 = {clp[:, 2:].tolist()}")
-            check(related <= frozenset(upper), "sys.relation.within", lambda: f"{name}: s3 = p*s2 holds at {sorted(related)} of axis {axis}; relations {case['relations']}: may hold at most at {sorted(upper)}")
-        n_clps_expected += sum(len(LABELS) - (i in zeroed["s0"]) - (i in zeroed["s1"]) - (i in related) for i in range(n))
-        decoded.append((zeroed, related, rel_p))
+            check(must <= related, "sys.relation.covers", lambda: f"{name}: {tgt} = p*{src} holds at {sorted(related)} of axis {axis}; relation {r} (of {len(case['relations'])}): must hold at {sorted(must)}; clp {src},{tgt} = {clp[:, [si, ti]].tolist()}")
+            check(related <= may, "sys.relation.within", lambda: f"{name}: {tgt} = p*{src} holds at {sorted(related)} of axis {axis}; relation {r} (of {len(case['relations'])}): may hold at most at {sorted(may)}")
+        if len(case["relations"]) > 1:
+            tags.append("multi_relation")
+            if any(0 < len(h) < len(case["relations"]) for h in hits):
+                tags.append("relations_differ_at_an_index")
+        n_clps_expected += sum(len(LABELS) - (i in zeroed["s0"]) - (i in zeroed["s1"]) - len({ti for _, ti, _ in hits[i]}) for i in range(n))
+        decoded.append((zeroed, hits))
     check(res.number_of_clps == n_clps_expected, "sys.number_of_clps", lambda: f"number_of_clps={res.number_of_clps}, clp table has {n_clps_expected} free entries")
 
     # ---- weights
@@ -757,30 +818,41 @@ def prop_sys(case):
                         tags += [f"weight_{key}:{x}" for x in tg]
 
     # ---- the fit honours the decoded sets and the weights (optimality certificate per index)
-    for (name, axis, clp, members), (zeroed, related, rel_p) in zip(views, decoded):
+    dep = _index_dep(case)
+    tags.append("index_dep=" + "".join("y" if x else "n" for x in dep))
+    for (name, axis, clp, members), (zeroed, hits) in zip(views, decoded):
         for i, gval in enumerate(axis):
             blocks, ys = [], []
+            model_weighted = False
             for d, j in members[i]:
                 t, g, y = raw[d]
-                a = _table(t, float(g[j]))
+                a = _table(t, float(g[j]), dep)
                 w = used_weight.get(d)
+                model_weighted |= w is not None and d not in dsw
                 wcol = w[:, j] if w is not None else np.ones(len(t))
                 blocks.append(a * wcol[:, None])
                 ys.append(y[:, j] * wcol)
             a, yw = np.concatenate(blocks), np.concatenate(ys)
             full = clp[i]
-            if i in related:
-                a = a.copy()
-                a[:, 2] = a[:, 2] + rel_p[i] * a[:, 3]
-            keep = [c for c in range(4) if not ((c == 0 and i in zeroed["s0"]) or (c == 1 and i in zeroed["s1"]) or (c == 3 and i in related))]
-            ar = a[:, keep]
+            targets = {ti for _, ti, _ in hits[i]}
+            keep = [c for c in range(4) if not ((c == 0 and i in zeroed["s0"]) or (c == 1 and i in zeroed["s1"]) or c in targets)]
+            ae = a.copy()
+            for si, ti, p in hits[i]:
+                ae[:, si] = ae[:, si] + p * a[:, ti]  # a source that is constrained to zero is not kept, its target is zero too
+            ar = ae[:, keep]
             r_code = np.linalg.norm(yw - ar @ full[keep])
             x_ref, *_ = np.linalg.lstsq(ar, yw, rcond=None)
             r_ref = np.linalg.norm(yw - ar @ x_ref)
+            if any(case["ds_weight"]):
+                clause = "dsweight.fit_uses_dataset_weight"
+            else:
+                # same oracle, bucketed by the configuration class (different root causes must not hide each other)
+                clause = "sys.fit_honours_items" + (".multi_relation" if len(case["relations"]) > 1 else "") + (".model_weight" if model_weighted else "")
             check(
                 r_code <= r_ref + 1e-9 * np.linalg.norm(yw),
-                "dsweight.fit_uses_dataset_weight" if any(case["ds_weight"]) else "sys.fit_honours_items",
-                lambda: f"{name} index {i} (global {gval}): residual norm of the reported clps {r_code:.12g} > optimum {r_ref:.12g} of the reduced weighted problem (free columns {keep})",
+                clause,
+                lambda: f"{name} index {i} (global {gval}): residual norm of the reported clps {full.tolist()} is {r_code:.12g} > optimum {r_ref:.12g} of the reduced weighted problem "
+                f"(free columns {keep}, relations acting here {hits[i]}, index_dep {dep})",
             )
 
     # ---- equal area penalties
@@ -802,6 +874,89 @@ def prop_sys(case):
             lambda: f"additional_penalty={got}; admissible per (view, penalty): {[(v[:6], 'absent ok' if a else 'required') for v, a, _ in slots]}; views {[(n_, ax) for n_, ax, _, _ in views]}; penalties {case['penalties']}; warnings {messages[:3]}",
         )
     return {"nontrivial": bool(nontrivial), "tags": sorted(set(tags))}
+
+
+# ------------------------------------------------------------------------------------------
+# system level, differential: "affects no point beyond the axis point nearest to a bound"
+
+
+def _run(case, clause):
+    from glotaran.optimization.optimize import optimize
+
+    scheme, raw, dsw = build_sys(case)
+    with warnings.catch_warnings():
+        warnings.simplefilter("ignore")
+        with expect_ok(clause):
+            res = optimize(scheme, verbose=False, raise_exception=True)
+    return res, raw
+
+
+def _reported_weight(res, d, raw):
+    t, g, _ = raw[d]
+    if "weight" not in res.data[d]:
+        return np.ones((len(t), len(g)))
+    return np.asarray(res.data[d].weight.transpose("model", "global").values, dtype=float)
+
+
+def prop_locality(case):
+    """Taking one interval item away changes nothing at the points its interval cannot reach.
+
+    The same scheme is optimised with and without one constraint / relation / model weight.  At every
+    index of the (aligned) global axis that lies beyond the points nearest to the item's bounds - for
+    ``only``: at every index inside its interval - the estimated clps must be the same in both runs,
+    whatever else the model contains (other items, their intervals, weights, index dependence): each
+    index is an independent linear problem built from that index's matrix, data and items.  A model
+    weight on a dataset that brings its own weight has no effect anywhere on that dataset.
+    """
+    import copy
+
+    base, drop = case["base"], case["drop"]
+    kind, k = drop["kind"], drop["k"]
+    item = base[kind][k]
+    less = copy.deepcopy(base)
+    del less[kind][k]
+    res_a, raw = _run(base, "locality.optimize")
+    res_b, _ = _run(less, "locality.optimize")
+    views_a, views_b = _views(base, res_a, raw), _views(less, res_b, raw)
+    name_of = item["type"] if kind == "constraints" else kind[:-1]
+    n_out = n_all = 0
+    for (name, axis, clp_a, members), (_, _, clp_b, _) in zip(views_a, views_b):
+        n = len(axis)
+        if kind == "weights":
+            # the weight lives on each dataset's own global axis
+            reach = set()
+            for i in range(n):
+                for d, j in members[i]:
+                    if d in item["datasets"] and not base["ds_weight"][int(d[1:])] and j in ref.union_sets(list(raw[d][1]), item["global_interval"])[1]:
+                        reach.add(i)
+        else:
+            must, may = ref.union_sets(axis, item["interval"])
+            reach = (set(range(n)) - must) if name_of == "only" else set(may)
+        n_all += n
+        for i in sorted(set(range(n)) - reach):
+            n_out += 1
+            scale = max(np.abs(clp_b[i]).max(), np.abs(clp_a[i]).max(), 1e-300)
+            ds_only = kind == "weights" and all(d not in item["datasets"] or base["ds_weight"][int(d[1:])] for d, _ in members[i]) and any(d in item["datasets"] for d, _ in members[i])
+            check(
+                bool(np.all(np.abs(clp_a[i] - clp_b[i]) <= 1e-9 * scale)),
+                "locality.weight.dataset_weight_used" if ds_only else f"locality.{name_of}.acts_outside_interval",
+                lambda: f"{name} index {i} (global {float(axis[i])}) of axis {[float(x) for x in axis]} cannot be reached by {name_of} {item}, but the clps {LABELS} are {clp_a[i].tolist()} with it "
+                f"and {clp_b[i].tolist()} without it; linked={base['linked']} index_dep={_index_dep(base)} relations={base['relations']} constraints={base['constraints']} weights={base['weights']}",
+            )
+    if kind == "weights":
+        for d in raw:
+            if d not in item["datasets"] or base["ds_weight"][int(d[1:])]:
+                out = set(range(len(raw[d][1])))
+            else:
+                out = set(range(len(raw[d][1]))) - set(ref.union_sets(list(raw[d][1]), item["global_interval"])[1])
+            wa, wb = _reported_weight(res_a, d, raw), _reported_weight(res_b, d, raw)
+            for j in sorted(out):
+                check(bool(np.allclose(wa[:, j], wb[:, j], rtol=1e-12, atol=0)), "locality.weight.array_outside_interval", lambda: f"{d} global index {j}: weight column {wa[:, j].tolist()} with and {wb[:, j].tolist()} without {item}")
+    has_interval = item.get("interval") is not None if kind != "weights" else item["global_interval"] is not None
+    tags = [f"drop:{name_of}", "linked" if base["linked"] else "unlinked", "index_dep=" + "".join("y" if x else "n" for x in _index_dep(base)), f"n_{kind}={len(base[kind])}"]
+    if any(base["ds_weight"]):
+        tags.append("dataset_weight")
+    return {"nontrivial": bool(has_interval and 0 < n_out < n_all), "tags": tags}
 
 
 # ------------------------------------------------------------------------------------------
@@ -829,9 +984,11 @@ PROPERTY = Property(
         "(zero / relation / only applies() with tuple and one-element-list form, weight slice, penalty area with flat and nested "
         "labels); two-interval lists over one representative bound per class (8 values -> 62^2 lists per axis) for zero, only, area; "
         "monotonicity over all comparable pairs of single intervals per axis and kind; random float axes (size 1-12) with "
-        "fragile bounds through Hypothesis. System level: optimize() of 1-2 dataset verif-table schemes (index dependent, linked "
-        "and unlinked, global axes subsets of the grid), zero/only constraints, relations, equal-area penalties, model weights, "
-        "dataset weights; affected sets decoded from Result.data[*].clp/.weight, additional_penalty, number_of_clps. "
+        "fragile bounds through Hypothesis. System level: optimize() of 1-2 dataset verif-table schemes (each of the two megacomplexes "
+        "index dependent or not, linked and unlinked, global axes subsets of the grid), zero/only constraints, 0-3 relations with "
+        "their own intervals, equal-area penalties, model weights, dataset weights; affected sets decoded from "
+        "Result.data[*].clp/.weight, additional_penalty, number_of_clps, plus an optimality certificate per index; differential "
+        "(sys_locality): the same scheme with and without one interval item agrees at every index the item cannot reach. "
         "Non-trivial: some interval has a bound strictly between two points, infinite, reversed or outside the axis while "
         "the set of inside points is neither empty nor the whole axis."
     ),
@@ -845,14 +1002,25 @@ PROPERTY = Property(
             doc="all 119 grid axes x {zero, only, slice, area}: S(I) <= S(I') for all comparable single intervals of the bound grid"),
         Sub("unit_random", prop=prop_unit_random, strategy=random_unit_cases, budget={"quick": 6000, "thorough": 600000}),
         Sub("sys_constraints", prop=prop_sys, strategy=lambda: sys_cases("constraints"), budget={"quick": 800, "thorough": 24000}),
+        Sub("sys_relations", prop=prop_sys, strategy=lambda: sys_cases("relations"), budget={"quick": 600, "thorough": 16000},
+            doc="2-3 relations with pairwise different targets and sources that are no targets, each with its own interval, "
+                "0-2 constraints on clps that are no relation target (relation sources included), sometimes a model weight"),
         Sub("sys_weights", prop=prop_sys, strategy=lambda: sys_cases("weights"), budget={"quick": 500, "thorough": 14000}),
         Sub("sys_penalty", prop=prop_sys, strategy=lambda: sys_cases("penalty"), budget={"quick": 600, "thorough": 16000}),
         Sub("sys_dsweight", prop=prop_sys, strategy=lambda: sys_cases("dsweight"), budget={"quick": 200, "thorough": 6000}),
+        Sub("sys_locality", prop=prop_locality, strategy=locality_cases, budget={"quick": 400, "thorough": 12000},
+            doc="differential: a system case (relations / weights / constraints / dsweight generator) optimised with and without one of "
+                "its constraints, relations or model weights; the clps (and reported weights) at every index the item's interval cannot "
+                "reach must be the same"),
     ],
     assumptions=[
         "reference semantics: inside <= S <= inside | [nearest(lo)..nearest(hi)]; bounds within 1e-9*scale of a point and nearest-point ties within 1e-9*scale are left open",
         "exhaustive grids are dyadic rationals: every sharp decision is exact in binary floating point",
-        "system level: an exactly zero clp means 'constrained', s3 == p*s2 to 1e-12 relative means 'related' (data are generic seeded noise + 2)",
+        "system level: an exactly zero clp means 'constrained', target == p*source to 1e-12 relative means 'related' (data are generic seeded noise + 2)",
+        "several relations: pairwise different targets, no target is a source or a constraint target (other combinations have no stated meaning where "
+        "both apply); a relation whose source is constrained to zero makes its target zero",
+        "sys_locality: indices of a (aligned) global axis are independent linear problems, so the clps at an index an item cannot reach are compared "
+        "to 1e-9 relative between the runs with and without the item",
         "equal-area penalty compared to 1e-9*weight*(sum|clp_src|+|p|sum|clp_tgt|); overlapping interval lists may count a point once or once per interval; a penalty with an empty side may be omitted",
         "linked groups: the axis of constraints, relations and penalties is the aligned global axis (link tolerance 0); model weights act on each dataset's own axes",
         "numpy lstsq is trusted for the per-index optimality certificate (1e-9*|y| slack)",
